@@ -52,7 +52,7 @@ def make(kind):
     if kind == "Rect":
         return svg.Rect(1, 2, 30, 40, fill="red", stroke="blue", stroke_width=3, transform="scale(2,3)")
     if kind == "RRect":
-        return svg.Rect(1, 2, 30, 40, 3, 4, stroke="blue")
+        return svg.Rect(1, 2, 30, 40, 3, 4, stroke="blue", stroke_width=0)            # a zero width is a value, not "unset"
     if kind == "RectLen":
         return svg.Rect("10%", "5%", 30, 40, fill="red", stroke="blue", stroke_width=3, transform="scale(2,3)")
     if kind == "CircleLen":
@@ -66,11 +66,11 @@ def make(kind):
     if kind == "Polyline":
         return svg.Polyline((0, 0), (3, 4), (6, 1), stroke="red", transform="scale(2)")
     if kind == "Polygon":
-        return svg.Polygon((0, 0), (3, 4), (6, 1), fill="blue")
+        return svg.Polygon((0, 0), (3, 4), (6, 1), fill="blue", stroke_width=0.0)
     if kind == "Group":
         g = svg.Group(id="g1", transform="translate(5,5)")
         g.append(svg.Rect(0, 0, 10, 10, fill="red"))
-        g.append(svg.Path("M0,0 L5,5 z", stroke="blue"))
+        g.append(svg.Path("M0,0 L5,5 z", stroke="blue", stroke_width=0))
         return g
     if kind == "GroupNested":
         g = svg.Group(id="outer")
